@@ -172,6 +172,13 @@ inline Outcome runSmootherCase(const KV& c, bool extrapolated)
             o.cls("sweep_on_copied_smoother");
             auto pt = std::make_unique<SmootherTake>(st);
             auto pg = std::make_unique<SmootherGive>(sg);
+            if (c.getI("smoother_copy", 0) == 2) {
+                // ... and the object that is copied has already swept (its line solvers hold factors, not matrices)
+                o.cls("copied_smoother_had_swept");
+                Vector<double> sx = xt, sy = xg, st1(xt.size()), st2v(xg.size());
+                pt->smoothing(sx, f, st1);
+                pg->smoothing(sy, f, st2v);
+            }
             SmootherTake st2(*pt);
             SmootherGive sg2(*pg);
             pt.reset();
@@ -192,6 +199,12 @@ inline Outcome runSmootherCase(const KV& c, bool extrapolated)
             o.cls("sweep_on_copied_smoother");
             auto pt = std::make_unique<ExtrapolatedSmootherTake>(st);
             auto pg = std::make_unique<ExtrapolatedSmootherGive>(sg);
+            if (c.getI("smoother_copy", 0) == 2) {
+                o.cls("copied_smoother_had_swept");
+                Vector<double> sx = xt, sy = xg, st1(xt.size()), st2v(xg.size());
+                pt->extrapolatedSmoothing(sx, f, st1);
+                pg->extrapolatedSmoothing(sy, f, st2v);
+            }
             ExtrapolatedSmootherTake st2(*pt);
             ExtrapolatedSmootherGive sg2(*pg);
             pt.reset();
@@ -522,7 +535,7 @@ inline KV genSmootherCase(bool extrapolated)
     c.putU("f_seed", rseed());
     c.putI("carry_bc", rbool());
     c.putI("via_level", rweighted({4, 1}));
-    c.putI("smoother_copy", rweighted({4, 1}));
+    c.putI("smoother_copy", rweighted({6, 1, 1}));
     c.putI("model", model);
     return c;
 }
